@@ -219,6 +219,29 @@ impl Sut {
     /// Create a fresh store (fresh device file if persistent). The calling thread's
     /// verification handler is set to a new session.
     pub fn create(cfg: Cfg, tag: &str) -> Result<Sut, String> {
+        Self::create_logged(cfg, tag, false).map(|(s, _)| s)
+    }
+
+    /// Like `create`, optionally logging device I/O from before the device exists.
+    /// Also returns the image the device had before the store touched it.
+    pub fn create_logged(cfg: Cfg, tag: &str, log: bool) -> Result<(Sut, Vec<u8>), String> {
+        let sess = Session::new();
+        sess.log_enabled.store(log, Ordering::SeqCst);
+        sess.clock.store(T0, Ordering::SeqCst);
+        sess.set_flag(F_NO_URING, !cfg.uring);
+        sess.set_flag(F_FORCE_SYNC, !cfg.uring);
+        let base = if !cfg.persistent {
+            Vec::new()
+        } else if cfg.format < 3 {
+            layoutref::empty_device(cfg.format, cfg.total_blocks(), T0 / SEC)
+        } else {
+            vec![0u8; cfg.total_blocks() as usize * 4096]
+        };
+        Self::create_with(cfg, tag, sess).map(|s| (s, base))
+    }
+
+    #[allow(dead_code)]
+    fn create_unused(cfg: Cfg, tag: &str) -> Result<Sut, String> {
         let sess = Session::new();
         sess.clock.store(T0, Ordering::SeqCst);
         sess.set_flag(F_NO_URING, !cfg.uring);
